@@ -97,7 +97,7 @@ theorem finishStep_T (a : Addr) (r : Run) (oc : Outcome) (hg : (taskGet r.w.task
       split
       · rename_i hn; rw [hn] at hg; simp at hg
       · rename_i x hx
-        obtain ⟨c1, c2, c3, _⟩ := completionLoop_U a (r.t.owned.length + 1) 0 (completionEnter r v)
+        obtain ⟨c1, c2, c3, _⟩ := completionLoop_U a r.t.owned (completionEnter r v)
         simp only [tokW, c1, c2, c3]
         have hpos := cntA_pos_of_get _ _ _ hx
         have haddr := taskGet_addr _ _ _ hx
@@ -144,7 +144,7 @@ theorem finishStep_rets (a : Addr) (r : Run) (oc : Outcome) :
       unfold processCompletion
       split
       · rfl
-      · rw [(completionLoop_U ⟨0, 0, 0⟩ _ _ _).2.2.2]
+      · rw [(completionLoop_U ⟨0, 0, 0⟩ _ _).2.2.2]
         unfold completionEnter; split <;> rfl
     simp only [finishStep]
     split <;> rw [this]
